@@ -10,6 +10,8 @@ Tie, on every run:
   join Lean model of the branch-join rule (ifChainOk / matchArmsOk) vs the real checker on programs
        with a wrongly typed branch at every position of if / else-if / if-let chains (2..5) and
        match arms (2, 3, 5), in constrained and unconstrained contexts
+  scope  every binding construct x {use in scope, use of that name just outside its scope}; theorems of
+       Props/C06c.lean over builder C13's Model/Scope.lean, tied by C13's `ssa` protocol run on these programs
   vis/imp/tya/conf/bnd  Lean kernels of Model/Gates.lean (visibility, imports, type-argument arity,
        interface conformance, bound validation) vs the real checker on generated declarations
 Direct implementation-side oracles (no model): literal range spec on token streams and parsed
@@ -1553,7 +1555,7 @@ def run(ctx):
         "fixed_findings": ["C06-F1 (d5c9a21): int_range_exact / accepted_literals_faithful now full strength",
                            "C06-F2 (db690ec): if condition checked against bool",
                            "C06-F3 (d05f979): private fields no longer visible in a same-named class of another module"],
-        "pending": ["name resolution (ssa_analysis) and exhaustiveness (C07's model) are reached by the mutant oracle only",
+        "pending": ["exhaustiveness (C07's model) is reached by the mutant oracle only; name resolution is covered through builder C13's Model/Scope.lean (scope-exit theorems in Props/C06c.lean) for local scopes; class/member/module name resolution: mutant oracle only",
                     "the inference engine that decides where `any` placeholders arise (hints, lambdas) is not modelled",
                     "resolve_all_transitive_super_types and the substitution of interface type arguments into inherited signatures are inputs of the bound / conformance kernels (computed by the generator), not modelled",
                     "solve_sound is proved for any-free concrete types; with placeholders inside the concrete type only the slv oracle applies",
